@@ -1,62 +1,51 @@
 /-
-  The entry armed for a wait carries the caller's time-out.
+  The entry in a socket's handle cell – and the entry of a handler that has passed its check – carries the time-out of the wait in
+  progress and was armed after that wait began.
 -/
 import MayVerif.Proof.Io.TT
 namespace MayVerif.Io
 
 structure Inv6 (st : St) : Prop where
-  a : ∀ k s c r t d, st.kpc k = .set s c r t → st.dur c = some d → st.tdur t = d
-  b : ∀ k s c r t d, st.kpc k = .store s c r → st.lastArm s = some t → st.dur c = some d → st.tdur t = d
-  c : ∀ s c t d, st.slot s = some c → st.lastArm s = some t → st.dur c = some d → st.tdur t = d
+  wf : ∀ c, st.waitFrom c ≤ st.now
+  a : ∀ s t, st.tslot s = some t → st.dur (st.own t) = some (st.tdur t) ∧ st.waitFrom (st.own t) ≤ st.armedAt t
+  b : ∀ w s t, (st.wpc w = .fOr s t ∨ st.wpc w = .fTake s t) →
+        st.dur (st.own t) = some (st.tdur t) ∧ st.waitFrom (st.own t) ≤ st.armedAt t
 
 theorem inv6_init (co : Co → Bool) : Inv6 (init co) := by
   constructor <;> simp [init, initCfg]
 
 set_option hygiene false in
 macro "crunch6" : tactic => `(tactic| (
-  simp only [kstep, wstep, ustep, estep, resumeU, schedule, disarm, finish, xtakeStep] at hs
+  simp only [kstep, wstep, ustep, estep, resumeU, schedule, disarm, finish, xtakeStep, hF, hD, hR, hO, hS, ↓reduceIte, Bool.true_and, Bool.false_and] at hs
   repeat' (split at hs)
   all_goals (first | contradiction | (simp only [Option.some.injEq] at hs; subst hs; constructor <;> (try simp only []) <;>
     first | grind | grind (splits := 30) | grind (splits := 40) (instances := 6000) (gen := 10)))))
 
 set_option hygiene false in
 macro "prep6" : tactic => `(tactic| (
-  have setU : ∀ k s c r t, st.kpc k = .set s c r t → st.user s = some c ∧ st.upc c = .wait s ∧ st.loc c = .tail k := by
-    intro k s c r t hk
-    have := h.wt k c s (by simp [hk, kTok])
-    exact ⟨h.u1 c s (by simp [this, uSock]), this, h.lt k c s (by simp [hk, kTok])⟩
-  have storeU : ∀ k s c r, st.kpc k = .store s c r → st.user s = some c ∧ st.upc c = .wait s ∧ st.loc c = .tail k := by
-    intro k s c r hk
-    have := h.wt k c s (by simp [hk, kTok])
-    exact ⟨h.u1 c s (by simp [this, uSock]), this, h.lt k c s (by simp [hk, kTok])⟩
-  have startU : ∀ k s c r, st.kpc k = .start s c r → st.user s = some c ∧ st.upc c = .wait s ∧ st.loc c = .tail k := by
-    intro k s c r hk
-    have := h.wt k c s (by simp [hk, kTok])
-    exact ⟨h.u1 c s (by simp [this, uSock]), this, h.lt k c s (by simp [hk, kTok])⟩
-  have slotU : ∀ s c, st.slot s = some c → st.user s = some c ∧ st.upc c = .wait s ∧ st.loc c = .slot s := by
-    intro s c hs
-    have := h.ws s c hs
-    exact ⟨h.u1 c s (by simp [this, uSock]), this, h.ls s c hs⟩
-  have fresh : ∀ s t, st.lastArm s = some t → t < st.nextTm := fun s t ht => (h5.ta s t ht).1
-  have setFresh : ∀ k s c r t, st.kpc k = .set s c r t → t < st.nextTm ∧ st.lastArm s = some t :=
-    fun k s c r t hk => ⟨(h5.ta s t (h5.tk0 k s c r t hk)).1, h5.tk0 k s c r t hk⟩
-  have u1 := h.u1
-  have hk0n : st.kpc st.nk = .off := by
-    have := h.k0 st.nk
-    simp at this
-    exact this
-  clear h h5
-  obtain ⟨a, b, c⟩ := h6))
+  obtain ⟨hF, hD, hR, hO, hS⟩ := hc
+  have tlt : ∀ s t, st.tslot s = some t → t < st.nextTm ∧ st.upc (st.own t) = .wait s := fun s t ht => ⟨(h7.m2 s t ht).1, (h7.m2 s t ht).2.1⟩
+  have flt : ∀ w s t, (st.wpc w = .fOr s t ∨ st.wpc w = .fTake s t) → t < st.nextTm ∧ st.upc (st.own t) = .wait s := by
+    intro w s t hw
+    refine ⟨?_, (h7.m1 w s t hw).1⟩
+    rcases hw with hw | hw
+    · exact (h3.t5f w s t hw).2
+    · exact (h3.t5 w s t hw).2
+  clear h3 h7
+  obtain ⟨wf, a, b⟩ := h6))
 
 set_option maxHeartbeats 16000000 in
-theorem inv6_kstep (st st' : St) (k : Kt) (pc : KPc) (e : Env) (h : Inv1 st) (h5 : Inv5 st) (h6 : Inv6 st)
+theorem inv6_kstep (st st' : St) (k : Kt) (pc : KPc) (e : Env) (hc : Cfg st) (h : Inv1 st) (h3 : Inv3 st) (h7 : Inv7 st) (h6 : Inv6 st)
     (hpc : st.kpc k = pc) (hs : kstep st k pc e = some st') : Inv6 st' := by
   prep6
+  have hwt := h.wt k
+  clear h
   cases pc with
   | off => simp [kstep] at hs
-  | start s c r => have := startU k s c r hpc; crunch6
-  | set s c r t => have := setU k s c r t hpc; crunch6
-  | store s c r => have := storeU k s c r hpc; crunch6
+  | start s c r => crunch6
+  | arm s c r => simp [hpc, kTok] at hwt; crunch6
+  | set s c r t => crunch6
+  | store s c r => crunch6
   | load s c r => crunch6
   | take s => crunch6
   | dis s c => crunch6
@@ -65,44 +54,49 @@ theorem inv6_kstep (st st' : St) (k : Kt) (pc : KPc) (e : Env) (h : Inv1 st) (h5
   | xor c => crunch6
   | xio c => crunch6
   | xtake s => crunch6
+  | xDis s c => crunch6
   | reg0 s c r => crunch6
   | chk2 s c => crunch6
   | own s => crunch6
   | ownDis s c => crunch6
 
 set_option maxHeartbeats 16000000 in
-theorem inv6_wstep (st st' : St) (w : Wk) (pc : WPc) (e : Env) (h : Inv1 st) (h5 : Inv5 st) (h6 : Inv6 st)
+theorem inv6_wstep (st st' : St) (w : Wk) (pc : WPc) (e : Env) (hc : Cfg st) (h : Inv1 st) (h3 : Inv3 st) (h7 : Inv7 st) (h6 : Inv6 st)
     (hpc : st.wpc w = pc) (hs : wstep st w pc e = some st') : Inv6 st' := by
   prep6
+  have ws := h.ws
+  clear h
   cases pc with
   | idle => cases e <;> crunch6
   | sTake s => crunch6
   | sDis s c => crunch6
+  | fChk s t => crunch6
   | fOr s t => crunch6
   | fTake s t => crunch6
   | xio c => crunch6
   | xtake s => crunch6
+  | xDis s c => crunch6
 
 set_option maxHeartbeats 16000000 in
-theorem inv6_ustep (st st' : St) (c0 : Co) (pc : UPc) (e : Env) (h : Inv1 st) (h5 : Inv5 st) (h6 : Inv6 st)
+theorem inv6_ustep (st st' : St) (c0 : Co) (pc : UPc) (e : Env) (hc : Cfg st) (h : Inv1 st) (h3 : Inv3 st) (h7 : Inv7 st) (h6 : Inv6 st)
     (hpc : st.upc c0 = pc) (hs : ustep st c0 pc e = some st') : Inv6 st' := by
   prep6
-  have hu1 := u1 c0
+  clear h
   cases pc with
   | idle => cases e <;> crunch6
   | done o => cases e <;> crunch6
-  | reset s => simp [hpc, uSock] at hu1; crunch6
-  | sys s f => simp [hpc, uSock] at hu1; cases e <;> crunch6
-  | dur s => simp [hpc, uSock] at hu1; cases e <;> crunch6
-  | chk s => simp [hpc, uSock] at hu1; crunch6
-  | pre s => simp [hpc, uSock] at hu1; crunch6
-  | wait s => simp [hpc, uSock] at hu1; cases e <;> crunch6
-  | back s => simp [hpc, uSock] at hu1; crunch6
-  | clear s => simp [hpc, uSock] at hu1; crunch6
-  | store s => simp [hpc, uSock] at hu1; crunch6
+  | reset s => crunch6
+  | sys s f => cases e <;> crunch6
+  | dur s => cases e <;> crunch6
+  | chk s => crunch6
+  | pre s => crunch6
+  | wait s => cases e <;> crunch6
+  | back s => crunch6
+  | clear s => crunch6
+  | store s => crunch6
 
 theorem inv6_estep (st st' : St) (e : Env) (h6 : Inv6 st) (hs : estep st e = some st') : Inv6 st' := by
-  obtain ⟨a, b, c⟩ := h6
-  cases e <;> simp only [estep] at hs <;> first | contradiction | (simp only [Option.some.injEq] at hs; subst hs; constructor <;> assumption)
+  obtain ⟨wf, a, b⟩ := h6
+  cases e <;> simp only [estep] at hs <;> (repeat' (split at hs)) <;> first | contradiction | (simp only [Option.some.injEq] at hs; subst hs; constructor <;> (try simp only []) <;> grind)
 
 end MayVerif.Io
